@@ -1,3 +1,4 @@
+import IpaVerif.Driver.C13Iso
 import IpaVerif.Model.Util
 import IpaVerif.Model.Channel
 /-! Line-protocol handlers for property C13 (model side). Import-free.
@@ -190,7 +191,7 @@ def handle (toks : List String) : Option String :=
       let some t := parseTotal t | return "bad-request"
       let some ops := parseChanOps ops | return "bad-request"
       return showOuts (chanModel sz t ops)
-  | _ => none
+  | _ => C13Iso.handle toks
 
 def oracle (toks : List String) (impl : String) : Option String :=
   match toks with
@@ -214,6 +215,6 @@ def oracle (toks : List String) (impl : String) : Option String :=
       match chanOracle sz t ops impl with
       | none => return "holds"
       | some why => return s!"fails {why}"
-  | _ => none
+  | _ => C13Iso.oracle toks impl
 
 end IpaVerif.Driver.C13
